@@ -480,4 +480,159 @@ theorem writer_guarantees (w : Written) (hm : CompleteMeta w) : Guarantees (writ
     · intro key hkey himp hopt
       exact hsome _ (hm.keys sec hsec key hkey himp hopt)
 
+/-! ## writer histories -/
+
+theorem stepHist_inv (st : Nat × List Nat) (op : WOp) (h : st.2 = List.range' 1 st.1) :
+    (stepHist st op).2 = List.range' 1 (stepHist st op).1 := by
+  cases op with
+  | append k =>
+    simp only [stepHist]
+    rw [h, List.length_range', ← List.range'_append_1, Nat.add_comm 1 st.1]
+  | replace k => rfl
+
+theorem foldl_stepHist_inv : ∀ (ops : List WOp) (st : Nat × List Nat),
+    st.2 = List.range' 1 st.1 →
+    (ops.foldl stepHist st).2 = List.range' 1 (ops.foldl stepHist st).1 := by
+  intro ops
+  induction ops with
+  | nil => intro st h; exact h
+  | cons op rest ih => intro st h; exact ih _ (stepHist_inv st op h)
+
+/-- after every history of appends and replace-mode rewrites the stored index enumerates the
+    events -/
+theorem runHist_index (h : List WOp) : (runHist h).2 = List.range' 1 (runHist h).1 :=
+  foldl_stepHist_inv h (0, []) rfl
+
+theorem histD_eq (w : Written) (h : List WOp) :
+    histD w h = writerD { w with n := (runHist h).1, storeIndex := true } := by
+  have : (writerD { w with n := (runHist h).1, storeIndex := true }).index
+      = some (runHist h).2 := by
+    rw [runHist_index]; rfl
+  unfold histD
+  rw [← this]
+
+/-! ## feature subsets -/
+
+theorem hasEvent_subsetD (d : D) (keep : String → Bool) (f : String) :
+    hasEvent (subsetD d keep) f = (hasEvent d f && keep f) := by
+  rw [Bool.eq_iff_iff]
+  simp only [hasEvent, subsetD, List.contains_iff_mem, List.mem_map, List.mem_filter,
+    Bool.and_eq_true]
+  constructor
+  · rintro ⟨e, ⟨he, hk⟩, rfl⟩
+    exact ⟨⟨e, he, rfl⟩, hk⟩
+  · rintro ⟨⟨e, he, rfl⟩, hk⟩
+    exact ⟨e, ⟨he, hk⟩, rfl⟩
+
+theorem hasFl_subsetD (d : D) (keep : String → Bool) (h : hasFl (subsetD d keep) = true) :
+    hasFl d = true := by
+  simp only [hasFl, hasEvent_subsetD, Bool.or_eq_true, Bool.and_eq_true] at h ⊢
+  rcases h with (h | h) | h
+  · exact Or.inl (Or.inl h.1)
+  · exact Or.inl (Or.inr h.1)
+  · exact Or.inr h.1
+
+/-- what is mandatory without fluorescence is mandatory with fluorescence -/
+def tableMono : Bool :=
+  (secsInvestigated false).all fun s =>
+    (secsInvestigated true).contains s &&
+    (keysOf (important false) s).all fun k => (keysOf (important true) s).contains k
+
+theorem lends_of_some (get : Get) (d : D) (v : Val) (h : get ("experiment", "event count") = some v) :
+    lends get d = toNat v := by
+  simp [lends, h]
+
+theorem table_mono : tableMono = true := by decide
+
+theorem eventCount_present (d : D) (g : Guarantees d) :
+    ∃ v, cfgGet d.cfg ("experiment", "event count") = some v := by
+  have hsec : "experiment" ∈ secsInvestigated (hasFl d) := by cases hasFl d <;> decide
+  have himp : (keysOf (important (hasFl d)) "experiment").contains "event count" = true := by
+    cases hasFl d <;> decide
+  have := (g.complete "experiment" hsec).2 "event count" (by decide) himp (by decide)
+  cases h : cfgGet d.cfg ("experiment", "event count") with
+  | none => rw [h] at this; cases this
+  | some v => exact ⟨v, rfl⟩
+
+/-- a clean description stays clean when only a subset of the features is kept, provided the
+    stored fluorescence channels are kept together or dropped together -/
+theorem subset_guarantees (d : D) (keep : String → Bool) (g : Guarantees d)
+    (hfl : hasFl (subsetD d keep) = true →
+      ∀ ce, ce ∈ chanKeys → hasEvent d ce.2 = true → keep ce.2 = true) :
+    Guarantees (subsetD d keep) := by
+  obtain ⟨ev, hev⟩ := eventCount_present d g
+  have hcfg : (subsetD d keep).cfg = d.cfg := rfl
+  have hl : lends (cfgGet (subsetD d keep).cfg) (subsetD d keep) = lends (cfgGet d.cfg) d := by
+    rw [hcfg, lends_of_some _ _ ev hev, lends_of_some _ _ ev hev]
+  refine
+    { lengths := ?_, traceLens := ?_, index := ?_, known := ?_, noExternal := g.noExternal,
+      roi := ?_, channels := ?_, lasers := ?_, samples := ?_, positive := g.positive,
+      polygons := g.polygons, basins := g.basins, complete := ?_, data := g.data }
+  · intro fl hfl'
+    rw [hl]
+    exact g.lengths fl (List.mem_filter.mp hfl').1
+  · intro t ht
+    rw [hl]
+    simp only [subsetD] at ht
+    split at ht
+    · exact g.traceLens t ht
+    · cases ht
+  · intro xs hxs
+    rw [hl]
+    simp only [subsetD] at hxs
+    split at hxs
+    · exact g.index xs hxs
+    · cases hxs
+  · intro fk hfk
+    exact g.known fk (List.mem_filter.mp hfk).1
+  · intro vx vy hx hy i hi
+    exact g.roi vx vy hx hy i (List.mem_filter.mp hi).1
+  · intro hs v hv
+    have hd := hasFl_subsetD d keep hs
+    have hcf : channelsFound (cfgGet (subsetD d keep).cfg) (subsetD d keep)
+        = channelsFound (cfgGet d.cfg) d := by
+      simp only [channelsFound, hcfg]
+      congr 1
+      apply List.filter_congr
+      intro ce hce
+      rw [hasEvent_subsetD]
+      cases he : hasEvent d ce.2 with
+      | false => simp
+      | true => simp [hfl hs ce hce he]
+    rw [hcf]
+    exact g.channels hd v hv
+  · intro hs v hv
+    exact g.lasers (hasFl_subsetD d keep hs) v hv
+  · intro hs v hv t ht
+    simp only [subsetD] at ht
+    split at ht
+    · exact g.samples (hasFl_subsetD d keep hs) v hv t ht
+    · cases ht
+  · intro sec hsec
+    cases hs : hasFl (subsetD d keep) with
+    | true =>
+      have hd := hasFl_subsetD d keep hs
+      rw [hs] at hsec
+      rw [← hd] at hsec
+      have := g.complete sec hsec
+      rw [hd] at this
+      exact this
+    | false =>
+      rw [hs] at hsec
+      cases hd : hasFl d with
+      | false =>
+        have := g.complete sec (by rw [hd]; exact hsec)
+        rw [hd] at this
+        exact this
+      | true =>
+        have hm := table_mono
+        simp only [tableMono, List.all_eq_true, Bool.and_eq_true] at hm
+        obtain ⟨h1, h2⟩ := hm sec hsec
+        rw [List.contains_iff_mem] at h1
+        have := g.complete sec (by rw [hd]; exact h1)
+        rw [hd] at this
+        refine ⟨this.1, fun key hkey himp hopt => this.2 key hkey ?_ hopt⟩
+        rw [List.contains_iff_mem] at himp
+        exact h2 key himp
+
 end DclabModel.Check
